@@ -393,7 +393,14 @@ pub struct Ctl {
     pub audit_work: u64,
     pub audit_work_budget: u64,
     pub audit_budget_exhausted: bool,
+    /// heap cells / stack slots beyond which a run is stopped (by unwinding out of the VM): a
+    /// defect that makes memory grow with the work done must not exhaust the host's memory
+    pub mem_ceiling: usize,
+    pub stack_ceiling: usize,
+    pub ceiling_hit: bool,
 }
+
+pub const MEMORY_CEILING_MESSAGE: &str = "verif: memory ceiling reached";
 
 #[derive(Clone, Debug, Default)]
 pub struct Probes {
@@ -538,6 +545,9 @@ impl Ctl {
             audit_work: 0,
             audit_work_budget: 1_500_000_000,
             audit_budget_exhausted: false,
+            mem_ceiling: 6_000_000,
+            stack_ceiling: 6_000_000,
+            ceiling_hit: false,
         }
     }
 
@@ -645,6 +655,10 @@ impl Ctl {
         self.note_production_gc(vm);
         if self.poisoned {
             panic!("verif: heap audit found a corrupted heap; run stopped");
+        }
+        if self.boundary % 2048 == 0 && (vm.verif_heap().capacity() > self.mem_ceiling || vm.verif_stack().len() > self.stack_ceiling) {
+            self.ceiling_hit = true;
+            panic!("{}: heap capacity {} cells, stack {} slots", MEMORY_CEILING_MESSAGE, vm.verif_heap().capacity(), vm.verif_stack().len());
         }
         let next_op = vm.verif_next_opcode().map(|o| opcode_id(&o)).unwrap_or(0);
         if self.record_ops {
